@@ -4,9 +4,12 @@ import BfeVerif.C34.Model
   C34 driver.
 
   op     = `;`-separated tokens
-             o<id>            open stream            d<id>:<len>:<0|1>   queue DATA write (messages numbered 0,1,..)
+             o<id> / e<id>    open stream (e: request already ended = half-closed remote)
+             d<id>:<len>:<0|1>   queue DATA write (messages numbered 0,1,..)
              h<id>:<0|1>      queue HEADERS write    c                   queue a stream-less frame
-             t                writeScheduler.take (+ closeStream after a frame with END_STREAM)
+             t                the writer becomes free: scheduleFrameWrite; a frame with END_STREAM goes through wroteFrame
+                              (stream closed, RST_STREAM(NO_ERROR) queued if the request had not ended) and the next
+                              frame is scheduled at once: the token is the chain `F1+F2+..`
              w<id>:<inc>      WINDOW_UPDATE (id 0 = connection)          i<val>  SETTINGS_INITIAL_WINDOW_SIZE
              m<val>           SETTINGS_MAX_FRAME_SIZE                    f<id>   closeStream (reset)
   result = one token per executed op joined by `;`, then `|conn=..|id=win,..|z=..|q=ids` or `|dead`
@@ -34,11 +37,12 @@ def nats (s : String) : Option (List Nat) := (s.splitOn ":").mapM (·.toNat?)
 
 def parseOp (t : String) : Option Op :=
   if t == "c" then some .addCtl
-  else if t == "t" then some (.takeOp [] [])
+  else if t == "t" then some (.takeOp [])
   else
     let body := (t.drop 1).toString
     match t.take 1 |>.toString, nats body with
-    | "o", some [id] => some (.openS id)
+    | "o", some [id] => some (.openS id false)
+    | "e", some [id] => some (.openS id true)
     | "d", some [id, len, e] => some (.addData id len (e != 0))
     | "h", some [id, e] => some (.addHdr id (e != 0))
     | "w", some [id, inc] => some (.wu id inc)
@@ -71,6 +75,17 @@ def dump (s : St) : String :=
     orDash (",".intercalate ((sortKV s.streams).map fun p => s!"{p.1}={p.2}")) ++
     s!"|z={s.zero}|q=" ++ orDash (",".intercalate ((sortKV s.sq).map fun p => s!"{p.1}"))
 
+def renderChain (l : List Out) : String :=
+  if l.isEmpty then "-" else "+".intercalate (l.map Out.render)
+
+/-- orders for the successive takes of a chain: the stream the implementation served first, then the
+    other keys known before the chain (closed streams simply have no queue any more) -/
+def chainOrders (keys : List Nat) (itok : String) : List (List Nat) :=
+  (itok.splitOn "+").map fun f =>
+    match chosen f with
+    | some id => id :: keys.filter (· != id)
+    | none => keys
+
 /-- run the model over the ops; `impl` = the implementation's tokens (for the iteration orders) -/
 def runModel : St → Nat → List Op → List String → List String → List String × St
   | s, _, [], _, acc => (acc.reverse, s)
@@ -79,15 +94,13 @@ def runModel : St → Nat → List Op → List String → List String → List S
     else
       let itok := impl.headD ""
       let op' := match op with
-        | .takeOp _ _ =>
+        | .takeOp _ =>
           let keys := s.sq.map (·.1)
-          let ord := match chosen itok with
-            | some id => id :: keys.filter (· != id)
-            | none => keys
-          Op.takeOp ord ord
+          -- one more (default) order than frames: the take that ends the chain
+          Op.takeOp (chainOrders keys itok ++ [keys])
         | o => o
-      let (tok, out, s') := step s msg op'
-      let tok' := match out with | some o => o.render | none => tok
+      let (tok, outs, s') := step s msg op'
+      let tok' := match op with | .takeOp _ => renderChain outs | _ => tok
       let msg' := match op with | .addData .. => msg + 1 | _ => msg
       runModel s' msg' ops impl.tail (tok' :: acc)
 
@@ -111,7 +124,11 @@ structure Mon where
 def Mon.flag (m : Mon) (c : String) : Mon := if m.fail.isSome then m else { m with fail := some c }
 def Mon.tag (m : Mon) (t : String) : Mon := if m.tags.contains t then m else { m with tags := t :: m.tags }
 
-def monClose (m : Mon) (id : Nat) : Mon := { m with win := delKey id m.win, pend := delKey id m.pend }
+def monClose (m : Mon) (id : Nat) : Mon :=
+  let m := match m.pend.lookup id with
+    | some (_ :: _) => m.tag "close-queued"      -- a stream is closed while writes are still queued
+    | _ => m
+  { m with win := delKey id m.win, pend := delKey id m.pend }
 
 def monAdd (m : Mon) (id : Nat) (it : Item) : Mon :=
   { m with pend := setKey id (((m.pend.lookup id).getD []) ++ [it]) m.pend }
@@ -163,11 +180,11 @@ def monFrame (m : Mon) (tok : String) : Mon :=
 def monStep (m : Mon) (op : Op) (tok : String) : Mon :=
   if m.dead then m else
   match op with
-  | .openS id => if tok == "+" then { m with win := setKey id m.iws m.win, pend := setKey id [] m.pend } else m
+  | .openS id _ => if tok == "+" then { m with win := setKey id m.iws m.win, pend := setKey id [] m.pend } else m
   | .addData id len e => if tok == "+" then monAdd m id (.data 0 len 0 e) else m
   | .addHdr id e => if tok == "+" then monAdd m id (.hdr e) else m
   | .addCtl => m
-  | .takeOp _ _ => monFrame m tok
+  | .takeOp _ => (tok.splitOn "+").foldl monFrame m
   | .wu id inc =>
     if id == 0 then
       let legal := m.conn + inc ≤ maxWin
@@ -211,6 +228,18 @@ def monitor (ops : List Op) (toks : List String) : Mon :=
       go m' r ts
   go {} (numberMsgs 0 ops) toks
 
+/-- the server's own view of the send windows (final dump of the implementation) must equal the
+    client-side ghost: initial windows + WINDOW_UPDATEs + SETTINGS deltas − DATA received -/
+def viewDrift (m : Mon) (impl : String) : Mon :=
+  if m.dead then m else
+  match impl.splitOn "|" with
+  | _ :: c :: ws :: _ =>
+    let expC := s!"conn={m.conn}"
+    let expW := orDash (",".intercalate ((sortKV m.win).map fun p => s!"{p.1}={p.2}"))
+    if c == "dead" then m
+    else if c != expC || ws != expW then m.flag "window-view-drift" else m
+  | _ => m
+
 def run (op impl : String) : Ans :=
   match (op.splitOn ";").mapM parseOp with
   | none => { model := "bad-op", verdict := "skip" }
@@ -218,7 +247,7 @@ def run (op impl : String) : Ans :=
     let implToks := ((impl.splitOn "|").headD "").splitOn ";"
     let (toks, s) := runModel init 0 ops implToks []
     let model := ";".intercalate toks ++ dump s
-    let m := monitor ops implToks
+    let m := viewDrift (monitor ops implToks) impl
     let m := if impl.startsWith "PANIC" then m.flag "panic" else m
     { model := model
       verdict := match m.fail with | some c => "FAIL:" ++ c | none => "ok"
